@@ -108,7 +108,7 @@ def axiom_audit(theorem_names, imports):
     if not theorem_names:
         return {}, ''
     h = hashlib.sha1('\n'.join(theorem_names).encode()).hexdigest()[:10]
-    path = os.path.join(LEAN, f'Audit_{h}.lean')
+    path = os.path.join(LEAN, f'Audit_{h}_{os.getpid()}.lean')
     with open(path, 'w') as f:
         for i in imports:
             f.write(f"import {i}\n")
